@@ -86,7 +86,10 @@ def show(spec):
 
 def sim_job(job):
     pspec, bdir, ff = job["port"], job["bdir"], job["ff"]
-    text = f"{'FFBuffer' if ff else 'Buffer'}({bdir!r}, {show(pspec)})"
+    idom, odom, tickdom = job.get("idom"), job.get("odom"), job.get("tick", "sync")
+    dom_kw = {k: v for k, v in (("i_domain", idom), ("o_domain", odom)) if v is not None}
+    eff_i, eff_o = idom or "sync", odom or "sync"            # the named domains; "sync" when not named
+    text = f"{'FFBuffer' if ff else 'Buffer'}({bdir!r}, {show(pspec)}{''.join(f', {k}={v!r}' for k, v in dom_kw.items())})" + (f", edge of {tickdom!r}" if dom_kw else "")
     base = {"id": job["id"], "program": text, "nontrivial": True, "kind": "simulation-port " + ("FFBuffer" if ff else "Buffer"),
             "symbolic": "o, oe, port inputs" + (", register stages" if ff else ""),
             "assertion": "port.o == o ^ mask, every port.oe bit == oe, i == (oe ? port.o : port.i) ^ mask (bidirectional) or port.i ^ mask, per bit of the composed port"
@@ -110,10 +113,11 @@ def sim_job(job):
         return [dict(ralg, status=VIOLATION, detail=f"{show(pspec)}: " + "; ".join(algebra_bad), signature={"kind": "algebra"}, replay={"job": job})]
     out = [dict(ralg, status=PROVED)]
     top = Module()
-    cd = ClockDomain("sync")
-    top.domains += cd
+    cds = {n: ClockDomain(n) for n in sorted({"sync", eff_i, eff_o, tickdom})}
+    top.domains += list(cds.values())
+    cd = cds[tickdom]
     try:
-        buf = (io.FFBuffer if ff else io.Buffer)(bdir, port)
+        buf = io.FFBuffer(bdir, port, **dom_kw) if ff else io.Buffer(bdir, port)
     except (ValueError, TypeError) as ex:
         return out + [dict(base, kind="unconstructible", status="skipped", detail=str(ex))]
     top.submodules.buf = buf
@@ -159,15 +163,22 @@ def sim_job(job):
                 src = sym_ite(bit(pv[pn]["oe"], j) != 0, bit(pv[pn]["o"], j), bit(pv[pn]["i"], j))
                 conds.append(bit(vals["i"], kbit) != (src ^ int(inv)))
     else:
-        # one register stage: after the edge the pad side shows the PREVIOUS fabric-side values and vice versa
+        # one register stage in the named domain: after an edge of that domain's clock the pad side shows the PREVIOUS fabric-side
+        # values and vice versa; an edge of another domain's clock leaves the stage as it was
         from vlib.pysym import sym_ite
         for kbit, (pn, j, inv) in enumerate(bits):
             if bdir != "i":
-                conds.append(bit(post["ports"][pn]["o"], j) != (bit(vals["o"], kbit) ^ int(inv)))
-                conds.append(bit(post["ports"][pn]["oe"], j) != vals["oe"])
-            if bdir == "i":
+                if eff_o == tickdom:
+                    conds.append(bit(post["ports"][pn]["o"], j) != (bit(vals["o"], kbit) ^ int(inv)))
+                    conds.append(bit(post["ports"][pn]["oe"], j) != vals["oe"])
+                else:
+                    conds.append(bit(post["ports"][pn]["o"], j) != bit(pv[pn]["o"], j))
+                    conds.append(bit(post["ports"][pn]["oe"], j) != bit(pv[pn]["oe"], j))
+            if bdir != "o" and eff_i != tickdom:
+                conds.append(bit(post["i"], kbit) != bit(vals["i"], kbit))
+            elif bdir == "i":
                 conds.append(bit(post["i"], kbit) != (bit(pv[pn]["i"], j) ^ int(inv)))
-            if bdir == "io":
+            elif bdir == "io":
                 src = sym_ite(bit(pv[pn]["oe"], j) != 0, bit(pv[pn]["o"], j), bit(pv[pn]["i"], j))
                 conds.append(bit(post["i"], kbit) != (src ^ int(inv)))
     from vlib.pysym import bool_term
@@ -193,14 +204,18 @@ def sim_concrete(job, vals):
     """Replay with the real Simulator; returns a description of wrong bits or ''."""
     from amaranth.sim import Simulator
     pspec, bdir, ff = job["port"], job["bdir"], job["ff"]
+    idom, odom, tickdom = job.get("idom"), job.get("odom"), job.get("tick", "sync")
+    dom_kw = {k: v for k, v in (("i_domain", idom), ("o_domain", odom)) if v is not None}
+    eff_i, eff_o = idom or "sync", odom or "sync"
     sports = {}
     with symsim.real_states():
         port = make_port(pspec, sports)
         bits, _ = ref_bits(pspec)
         top = Module()
-        cd = ClockDomain("sync")
-        top.domains += cd
-        buf = (io.FFBuffer if ff else io.Buffer)(bdir, port)
+        cds = {n: ClockDomain(n) for n in sorted({"sync", eff_i, eff_o, tickdom})}
+        top.domains += list(cds.values())
+        cd = cds[tickdom]
+        buf = io.FFBuffer(bdir, port, **dom_kw) if ff else io.Buffer(bdir, port)
         top.submodules.buf = buf
         w = len(port)
         o, oe, i = Signal(w, name="o"), Signal(name="oe"), Signal(w, name="i")
@@ -220,7 +235,7 @@ def sim_concrete(job, vals):
         async def tb(ctx):
             for sl in sim._engine._state.slots:
                 sg = sl.signal
-                if len(sg) and sg is not cd.clk:
+                if len(sg) and not any(sg is c.clk for c in cds.values()):
                     try:
                         ctx.set(sg, val(sg.name))
                     except Exception:
@@ -229,19 +244,28 @@ def sim_concrete(job, vals):
             pre_o = {n: (ctx.get(p.o) if p._o is not None else 0) for n, p in sports.items()}
             pre_oe = {n: (ctx.get(p.oe) if p._oe is not None else 0) for n, p in sports.items()}
             vo, voe = (ctx.get(o), ctx.get(oe)) if bdir != "i" else (0, 0)
+            vi = ctx.get(i) if bdir != "o" else 0
             if ff:
                 ctx.set(cd.clk, 1)
             for kbit, (pn, j, inv) in enumerate(bits):
                 p = sports[pn]
-                if bdir != "i":
+                if bdir != "i" and ff and eff_o != tickdom:
+                    if (ctx.get(p.o) >> j) & 1 != (pre_o[pn] >> j) & 1:
+                        wrong.append(f"{pn}.o[{j}] changed at an edge of another domain")
+                    if (ctx.get(p.oe) >> j) & 1 != (pre_oe[pn] >> j) & 1:
+                        wrong.append(f"{pn}.oe[{j}] changed at an edge of another domain")
+                elif bdir != "i":
                     if (ctx.get(p.o) >> j) & 1 != ((vo >> kbit) & 1) ^ int(inv):
                         wrong.append(f"{pn}.o[{j}]")
                     if (ctx.get(p.oe) >> j) & 1 != voe:
                         wrong.append(f"{pn}.oe[{j}]")
-                if bdir == "i":
+                if bdir != "o" and ff and eff_i != tickdom:
+                    if (ctx.get(i) >> kbit) & 1 != (vi >> kbit) & 1:
+                        wrong.append(f"i[{kbit}] changed at an edge of another domain")
+                elif bdir == "i":
                     if (ctx.get(i) >> kbit) & 1 != ((pre_i[pn] >> j) & 1) ^ int(inv):
                         wrong.append(f"i[{kbit}]")
-                if bdir == "io":
+                elif bdir == "io":
                     src = ((pre_o[pn] >> j) & 1) if (pre_oe[pn] >> j) & 1 else ((pre_i[pn] >> j) & 1)
                     if (ctx.get(i) >> kbit) & 1 != src ^ int(inv):
                         wrong.append(f"i[{kbit}]")
@@ -460,7 +484,49 @@ def gen_real_exprs(r, n):
     return out
 
 
+def algebra_job(job):
+    """Concrete, total over the finite direction domain: `+` of two ports of every kind takes the meet of the directions (a bidirectional
+    operand adopts the other's direction, input + output is refused), in either operand order; slices and ~ keep the direction."""
+    kind, d1, d2 = job["pkind"], job["d1"], job["d2"]
+    text = f"{kind}Port({d1!r}, 2, invert=10) + {kind}Port({d2!r}, 1, invert=1)"
+    base = {"id": job["id"], "program": text, "kind": "port algebra: directions", "nontrivial": d1 != d2,
+            "assertion": "p + q has the meet of the two directions (ValueError for input + output), the concatenated inversion mask and the summed width; "
+                         "slicing and inverting keep the direction"}
+
+    def mk(d, w, inv, nm):
+        if kind == "SingleEnded":
+            return io.SingleEndedPort(IOPort(w, name=nm), invert=list(inv), direction=d)
+        if kind == "Differential":
+            return io.DifferentialPort(IOPort(w, name=nm + "_p"), IOPort(w, name=nm + "_n"), invert=list(inv), direction=d)
+        return io.SimulationPort(d, w, invert=list(inv), name=nm)
+    want = _and_dir(d1, d2)
+    bad = []
+    try:
+        p, q = mk(d1, 2, (False, True), "pa"), mk(d2, 1, (True,), "pb")
+        for a, b, inv in ((p, q, (False, True, True)), (q, p, (True, False, True))):
+            try:
+                c = a + b
+            except ValueError:
+                if want is not None:
+                    bad.append("the concatenation is refused")
+                continue
+            if want is None:
+                bad.append(f"input + output is accepted (direction {c.direction})")
+            elif c.direction != io.Direction(want) or len(c) != 3 or tuple(c.invert) != inv:
+                bad.append(f"direction {c.direction}, width {len(c)}, invert {tuple(c.invert)}; expected {want}, 3, {inv}")
+        for nm, e in (("slice", p[0:1]), ("index", p[1]), ("invert", ~p), ("empty slice", p[1:1])):
+            if e.direction != io.Direction(d1):
+                bad.append(f"{nm} has direction {e.direction}")
+    except Exception as ex:
+        bad.append(f"raises {type(ex).__name__}: {ex}")
+    if bad:
+        return [dict(base, status=VIOLATION, detail=f"{text}: " + "; ".join(bad[:3]), signature={"kind": "algebra-direction", "pkind": kind}, replay={"job": job})]
+    return [dict(base, status=PROVED)]
+
+
 def job_fn(job):
+    if job["what"] == "algebra":
+        return algebra_job(job)
     if job["what"] == "sim":
         return sim_job(job)
     return real_expr_job(job) if job["what"] == "real-expr" else real_job(job)
@@ -475,6 +541,10 @@ def replay(path):
     if job["what"] == "real":
         job["invert"] = tuple(job["invert"])
         x = real_job(job)[0]
+        print(x.get("detail"))
+        return 1 if x["status"] == VIOLATION else 0
+    if job["what"] == "algebra":
+        x = algebra_job(job)[0]
         print(x.get("detail"))
         return 1 if x["status"] == VIOLATION else 0
     job["port"] = _tup(job["port"])
@@ -547,6 +617,20 @@ def main(tier, seed):
                         if tier == "quick" and ff and w == 3 and mask % 3:
                             continue
                         jobs.append({"id": f"sim-{len(jobs):05d}", "what": "sim", "port": ("base", "p", pdir, w, inv), "bdir": bdir, "ff": ff})
+    for pk in ("SingleEnded", "Differential", "Simulation"):
+        for d1 in ("i", "o", "io"):
+            for d2 in ("i", "o", "io"):
+                jobs.append({"id": f"alg-{pk}-{d1}-{d2}", "what": "algebra", "pkind": pk, "d1": d1, "d2": d2})
+    # FFBuffer with named domains: every combination of named / defaulted input and output domain, an edge of each domain involved
+    for w, inv in ((1, (True,)), (2, (False, True))) + (() if tier == "quick" else ((3, (True, True, False)),)):
+        for pdir, bdir in (("i", "i"), ("o", "o"), ("io", "i"), ("io", "o"), ("io", "io")):
+            for idom in ((None, "di", "sync") if bdir != "o" else (None,)):
+                for odom in ((None, "do", "di", "sync") if bdir != "i" else (None,)):
+                    if idom is None and odom is None:
+                        continue
+                    for tick in sorted({"sync", idom or "sync", odom or "sync"}):
+                        jobs.append({"id": f"sim-{len(jobs):05d}", "what": "sim", "port": ("base", "p", pdir, w, inv), "bdir": bdir, "ff": True,
+                                     "idom": idom, "odom": odom, "tick": tick})
     for pe in gen_ports(r, 150 if tier == "quick" else 3000):
         d = ref_bits(pe)[1]
         for bdir in (["i", "o", "io"] if d == "io" else [d]):
